@@ -250,6 +250,52 @@ func csvCase[T any](cc *run.Case, census *mon.Census, typ string, doc []byte, ha
 	return true
 }
 
+// failingReader delivers the first n bytes of a document and then an I/O
+// error that is not a syntax error (a broken connection, a disk error).
+type failingReader struct {
+	doc []byte
+	n   int
+	off int
+}
+
+func (f *failingReader) Read(p []byte) (int, error) {
+	if f.off >= f.n {
+		return 0, fmt.Errorf("verif: injected read error after %d bytes", f.n)
+	}
+	k := copy(p, f.doc[f.off:f.n])
+	f.off += k
+	return k, nil
+}
+
+// csvFaultCase: the input fails with a read error after `cut` bytes. The
+// reader must not panic, must close its stream, and whatever it delivered
+// must be records of the document's well-formed prefix, in order.
+func csvFaultCase[T any](cc *run.Case, census *mon.Census, typ string, doc []byte, cut int, hasHeader bool) bool {
+	cc.Desc(map[string]any{"reader": "csv", "type": typ, "hasHeader": hasHeader, "doc": string(doc), "read_error_after": cut})
+	logCount.Store(0)
+	census.Begin()
+	c, _ := helper.NewCsv[T](hasHeader)
+	c.Logger = discardLogger
+	got := helper.ChanToSlice(c.ReadFromReader(&failingReader{doc: doc, n: cut}))
+	cc.Count("read_fault_cases", 1)
+	want := refCsv[T](doc, hasHeader) // records of the whole document: the delivered ones must be a prefix
+	if len(got) > len(want) {
+		cc.Viol("", fmt.Sprintf("CSV reader (%s) delivered %d rows from an input that failed after %d bytes; the whole document has only %d well-formed records", typ, len(got), cut, len(want)), nil)
+		return false
+	}
+	for i := range got {
+		if m := sameRow(want[i], got[i]); m != "" {
+			cc.Viol("", fmt.Sprintf("CSV reader (%s), input failing after %d bytes: row %d: %s", typ, cut, i, m), nil)
+			return false
+		}
+	}
+	if lk := census.End(); lk != nil && !lk.Unsettled {
+		cc.Viol("", fmt.Sprintf("CSV reader (%s) left %d goroutine(s) behind after a read error: %s", typ, lk.Count, mon.LeakSite(lk.Stacks[0])), nil)
+		return false
+	}
+	return true
+}
+
 // ---- document generators ----
 
 func validDoc(r *gen.Rand, cols []string, gens []func(*gen.Rand) string, nrows int, header bool) []byte {
@@ -343,24 +389,30 @@ func corrupt(r *gen.Rand, doc []byte) []byte {
 }
 
 type csvShape struct {
-	name string
-	cols []string
-	gens []func(*gen.Rand) string
-	run  func(cc *run.Case, census *mon.Census, doc []byte, header bool, file string) bool
+	name  string
+	cols  []string
+	gens  []func(*gen.Rand) string
+	run   func(cc *run.Case, census *mon.Census, doc []byte, header bool, file string) bool
+	fault func(cc *run.Case, census *mon.Census, doc []byte, cut int, header bool) bool
 }
 
 func csvShapes() []csvShape {
 	return []csvShape{
 		{"shape1", []string{"A"}, []func(*gen.Rand) string{gStr},
-			func(cc *run.Case, cs *mon.Census, d []byte, h bool, f string) bool { return csvCase[shape1](cc, cs, "shape1", d, h, f) }},
+			func(cc *run.Case, cs *mon.Census, d []byte, h bool, f string) bool { return csvCase[shape1](cc, cs, "shape1", d, h, f) },
+			func(cc *run.Case, cs *mon.Census, d []byte, cut int, h bool) bool { return csvFaultCase[shape1](cc, cs, "shape1", d, cut, h) }},
 		{"shape2", []string{"I", "F"}, []func(*gen.Rand) string{gInt, gFloat},
-			func(cc *run.Case, cs *mon.Census, d []byte, h bool, f string) bool { return csvCase[shape2](cc, cs, "shape2", d, h, f) }},
+			func(cc *run.Case, cs *mon.Census, d []byte, h bool, f string) bool { return csvCase[shape2](cc, cs, "shape2", d, h, f) },
+			func(cc *run.Case, cs *mon.Census, d []byte, cut int, h bool) bool { return csvFaultCase[shape2](cc, cs, "shape2", d, cut, h) }},
 		{"shape3", []string{"B", "U", "S"}, []func(*gen.Rand) string{gBool, gU8, gStr},
-			func(cc *run.Case, cs *mon.Census, d []byte, h bool, f string) bool { return csvCase[shape3](cc, cs, "shape3", d, h, f) }},
+			func(cc *run.Case, cs *mon.Census, d []byte, h bool, f string) bool { return csvCase[shape3](cc, cs, "shape3", d, h, f) },
+			func(cc *run.Case, cs *mon.Census, d []byte, cut int, h bool) bool { return csvFaultCase[shape3](cc, cs, "shape3", d, cut, h) }},
 		{"shape6", []string{"Date", "Open", "High", "Low", "Close", "Volume"}, []func(*gen.Rand) string{gDate, gFloat, gFloat, gFloat, gFloat, gFloat},
-			func(cc *run.Case, cs *mon.Census, d []byte, h bool, f string) bool { return csvCase[shape6](cc, cs, "shape6", d, h, f) }},
+			func(cc *run.Case, cs *mon.Census, d []byte, h bool, f string) bool { return csvCase[shape6](cc, cs, "shape6", d, h, f) },
+			func(cc *run.Case, cs *mon.Census, d []byte, cut int, h bool) bool { return csvFaultCase[shape6](cc, cs, "shape6", d, cut, h) }},
 		{"shape8", []string{"Id", "Name", "X", "Ok", "N", "When", "tag name", "Z"}, []func(*gen.Rand) string{gInt64, gStr, gF32, gBool, gU16, gStamp, gStr, gI8},
-			func(cc *run.Case, cs *mon.Census, d []byte, h bool, f string) bool { return csvCase[shape8](cc, cs, "shape8", d, h, f) }},
+			func(cc *run.Case, cs *mon.Census, d []byte, h bool, f string) bool { return csvCase[shape8](cc, cs, "shape8", d, h, f) },
+			func(cc *run.Case, cs *mon.Census, d []byte, cut int, h bool) bool { return csvFaultCase[shape8](cc, cs, "shape8", d, cut, h) }},
 	}
 }
 
@@ -575,6 +627,12 @@ func c19(ctx *run.Ctx) {
 				}
 				cc.Count("cmp:csv/"+sh.name, 1)
 				cc.Count("truncation_offsets", int64(len(doc)+1))
+				// the same document behind an input that fails with an I/O error at every offset
+				for cut := 0; cut <= len(doc); cut++ {
+					if !sh.fault(cc, census, doc, cut, header) {
+						return
+					}
+				}
 			})
 			// grammar-aware corruptions and byte mutations
 			for b := 0; b < nMut/40; b++ {
@@ -633,7 +691,33 @@ func c19(ctx *run.Ctx) {
 			cc.Viol("", "FileSystemRepository.Assets on a missing directory returned no error", nil)
 			return
 		}
-		cc.Count("file_fault_cases", 4)
+		// a directory where a file is expected: reading must neither panic nor hang
+		os.Mkdir(filepath.Join(dir, "adir.csv"), 0o700)
+		if rows, err := helper.ReadFromCsvFile[shape2](filepath.Join(dir, "adir.csv"), true); err == nil {
+			helper.Drain(rows)
+		}
+		if c, err := repo.Get("adir"); err == nil {
+			helper.Drain(c)
+		}
+		if _, err := repo.LastDate("adir"); err == nil {
+			cc.Viol("", "FileSystemRepository.LastDate of an asset whose file is a directory returned no error", nil)
+			return
+		}
+		// asset files that open but hold no well-formed snapshot: LastDate must not be an empty success
+		for name, content := range map[string]string{"zero": "", "hdronly": "Date,Open,High,Low,Close,Volume\n", "html": "<html><body>502 Bad Gateway</body></html>\n", "badrow": "Date,Open,High,Low,Close,Volume\nnot-a-date,1,2,3,4,5\n"} {
+			os.WriteFile(filepath.Join(dir, name+".csv"), []byte(content), 0o600)
+			if d, err := repo.LastDate(name); err == nil {
+				cc.Viol("", fmt.Sprintf("FileSystemRepository.LastDate(%q) of a file without a single well-formed snapshot (%q) returned %s and no error", name, content, d.Format("2006-01-02")), nil)
+				return
+			}
+			if c, err := repo.Get(name); err == nil {
+				if got := helper.ChanToSlice(c); len(got) != 0 {
+					cc.Viol("", fmt.Sprintf("FileSystemRepository.Get(%q) delivered %d snapshots from %q", name, len(got), content), nil)
+					return
+				}
+			}
+		}
+		cc.Count("file_fault_cases", 11)
 		cc.Distinct("files/missing")
 		cc.Distinct("files/missing-dir")
 	})
@@ -657,6 +741,28 @@ func c19(ctx *run.Ctx) {
 			if !jsonCase[asset.TiingoEndOfDay](cc, census, "TiingoEndOfDay", rows[:cut], func(a, b asset.TiingoEndOfDay) bool { return a == b }) {
 				return
 			}
+		}
+		for cut := 0; cut <= len(rows); cut++ {
+			cc.Desc(map[string]any{"reader": "json", "doc": string(rows), "read_error_after": cut})
+			logCount.Store(0)
+			census.Begin()
+			got := helper.ChanToSlice(helper.JSONToChanWithLogger[asset.TiingoEndOfDay](&failingReader{doc: rows, n: cut}, discardLogger))
+			want := refJSON[asset.TiingoEndOfDay](rows)
+			if len(got) > len(want) {
+				cc.Viol("", fmt.Sprintf("JSON stream reader delivered %d values from an input that failed after %d bytes (document has %d)", len(got), cut, len(want)), nil)
+				return
+			}
+			for i := range got {
+				if got[i] != want[i] {
+					cc.Viol("", fmt.Sprintf("JSON stream reader, input failing after %d bytes: value %d differs from the document's", cut, i), nil)
+					return
+				}
+			}
+			if lk := census.End(); lk != nil && !lk.Unsettled {
+				cc.Viol("", fmt.Sprintf("JSON stream reader left %d goroutine(s) behind after a read error", lk.Count), nil)
+				return
+			}
+			cc.Count("read_fault_cases", 1)
 		}
 		cc.Count("cmp:json", 1)
 	})
